@@ -132,7 +132,10 @@ def schedules(R: Run):
     C2 = frozenset({"acq", "create", "upload", "complete", "vget"})
 
     def exhaustive(variant, kinds, workers, coarse, tag, gate=False, oracle=True):
-        obs, truncated = S.enumerate_all(kinds, workers, coarse, procs=procs, gate_fin=gate)
+        # wall-clock valve per configuration, far above what the unchanged protocol needs; once a failing
+        # input is known, later configurations are only sampled
+        budget = 3 if R.oracle_failures else R.pick(25, 240)
+        obs, truncated = S.enumerate_all(kinds, workers, coarse, procs=procs, gate_fin=gate, budget_s=budget)
         if truncated:
             R.notes.append(f"enumeration truncated for {variant} {kinds} {workers} ({tag}): more interleavings "
                            "than the unchanged protocol has")
